@@ -36,6 +36,9 @@ FUNCS = [
     ("socket_wrapper.py", "SocketWrapper.readline"),
     ("ubxmessage.py", "UBXMessage.config_set"), ("ubxmessage.py", "UBXMessage.config_del"),
     ("ubxmessage.py", "UBXMessage.config_poll"),
+    ("ubxmessage.py", "UBXMessage._do_len_checksum"), ("ubxmessage.py", "UBXMessage.serialize"),
+    ("ubxmessage.py", "UBXMessage.length"), ("ubxmessage.py", "UBXMessage.payload"),
+    ("ubxmessage.py", "UBXMessage.msg_cls"), ("ubxmessage.py", "UBXMessage.msg_id"), ("ubxmessage.py", "UBXMessage.msgmode"),
 ]
 
 
